@@ -530,6 +530,11 @@ func (x *treeExec) serve(m, raw string, hdr map[string]string) (o serveOut) {
 		}
 		if v != "" {
 			h.Set(k, v)
+			if x.serveN%3 == 2 && k != "X-Nest" {
+				// the header is sent in two lines; the second value is one that no constraint of the pool is about
+				// (a value that is matched stays matched, one that is not stays unmatched)
+				h[http.CanonicalHeaderKey(k)] = []string{v, "##"}
+			}
 		} else if x.emptyHdr == 1 {
 			h[http.CanonicalHeaderKey(k)] = []string{""} // the header is PRESENT with an empty value
 		} else if x.emptyHdr == 2 {
